@@ -44,3 +44,43 @@ theorem interp_clone_is_model (env : Env) (N : Nat) (grow : Bool) (src : List By
     | fault f => simp
 
 end Lasso
+
+namespace Lasso
+open Lasso.Source
+
+theorem interp_tryClone_is_model (env : Env) (r : Rodeo) (grow : Bool) :
+    interpTryClone env Extracted.tryCloneEffects Extracted.cloneCopyEffects r grow = r.tryClone env grow := by
+  have he : Extracted.tryCloneEffects =
+      [.sumLengths, .arenaSizedToContent, .propagate, .presizeExact, .presizeExact, .cloneHasher, .copyAll, .propagate] := by decide
+  unfold interpTryClone Rodeo.tryClone
+  rw [he]
+  cases hc : Rodeo.contents env r.arena.read r.strings with
+  | none => simp
+  | some cs =>
+    simp only [runWEffects, CEffect.runW, interp_clone_is_model]
+    cases hi : Rodeo.cloneInto env r.N grow cs 0 [] []
+        (Arena.new (if sumNat (cs.map List.length) = 0 then 4096 else sumNat (cs.map List.length))
+          (Nat.max r.arena.max (if sumNat (cs.map List.length) = 0 then 4096 else sumNat (cs.map List.length)))) with
+    | ok p => obtain ⟨t, ss, a⟩ := p; simp [hi]
+    | err e => simp [hi]
+    | panic => simp [hi]
+    | fault f => simp [hi]
+
+theorem interp_tryCloneFrom_is_model (env : Env) (target source : Rodeo) (grow : Bool) :
+    interpTryCloneFrom env Extracted.tryCloneFromEffects Extracted.cloneCopyEffects target source grow =
+      Rodeo.tryCloneFrom env target source grow := by
+  have he : Extracted.tryCloneFromEffects =
+      [.clearTarget, .takeHasher, .reserve, .propagate, .reserve, .propagate, .copyAll, .propagate] := by decide
+  unfold interpTryCloneFrom Rodeo.tryCloneFrom
+  rw [he]
+  cases hc : Rodeo.contents env source.arena.read source.strings with
+  | none => simp
+  | some cs =>
+    simp only [runWEffects, CEffect.runW, interp_clone_is_model, Rodeo.clear]
+    cases hi : Rodeo.cloneInto env target.N grow cs 0 [] [] target.arena.clear with
+    | ok p => obtain ⟨t, ss, a⟩ := p; simp [hi]
+    | err e => simp [hi]
+    | panic => simp [hi]
+    | fault f => simp [hi]
+
+end Lasso
